@@ -9,9 +9,15 @@ SPEC = dict(
     rule="single-joint systems Ground->body: 18 built-in types x {identity, translation-only, general} inboard x outboard "
          "frames x forward/reversed x quaternion/Euler x random q,u, plus 10% random trees (2-6 bodies quick, 2-12 thorough; "
          "chain/star/random branching) from VERIF_SEED; distinct = distinct input records",
-    partial="HDot of a *reversed* mobilizer (calcReverseMobilizerHDot_FM) and of the ground-frame HDot_PB_G, and the "
-            "LineOrientation/FreeLine N/NInv/NDot blocks, are tied by correspondence (Coriolis acceleration, multiplyByN*) "
-            "and by the finite-difference predicates only; Custom/FunctionBased mobilizers are not modelled here",
+    partial="(i) proved about the executed model: X_FM jets for Pin, Slider, Cylinder, Screw, Translation, Planar, BendStretch, "
+            "Universal, Gimbal, Bushing, Cantilever, Ball/Free/Ellipsoid (both options), LineOrientation/FreeLine (both options, "
+            "FORWARD definition only), SphericalCoords (via C05 docX + code_eq_doc); HDot_FM of every type with non-constant H; "
+            "the default reversed H_FM and HDot_FM; H_PB_G / HDot_PB_G; the tree step and its induction along any path from "
+            "Ground (path_vel_is_derivative); Ball/Free N, NInv, NDot, qdotdot blocks.  (ii) predicate/correspondence only: "
+            "the LineOrientation/FreeLine N/NInv/NDot/qdotdot blocks and their reversed use of the cached R_FM (this is where "
+            "the known findings are), Weld, total Coriolis acceleration of whole trees (fd_cor), 2nd-order central differences "
+            "(h=1e-5) stand in for the 'high-order' differences of the quantifier.  (iii) not covered: Custom/FunctionBased "
+            "mobilizers (C04/C06 exercise them)",
     assumptions=["libm sin/cos/sqrt trusted: angles are trig pairs (c,s) with c^2+s^2=1; 1/cos(q1) and 1/|q| are parameters with their defining equations as hypotheses",
                  "jet lifts of cos, sin, 1/cos, 1/sqrt are definitions (DESIGN.md §3 item 6); 'rigid motion' is read as Rdot=[w]x R, pdot=v",
                  "finite-difference predicates use h=1e-5 central differences: truncation O(h^2)~1e-10, rounding eps/h~1e-11, bound 1e-6"],
